@@ -10,6 +10,12 @@
 (*            EbUtility.c:1513)                                            *)
 (*   rtcd  -- the kernel dispatch pointers, set by every svt_av1_enc_init  *)
 (*            from that instance's use_cpu_flags (EbEncHandle.c:1157-1158) *)
+(*   ports -- rate_control_ports[] / enc_dec_ports[] (EbEncHandle.c:671,  *)
+(*            703): file-scope tables whose .count fields every           *)
+(*            svt_av1_enc_init overwrites from that instance's process    *)
+(*            counts (:1308-1314) and then reads back through             *)
+(*            rate_control_port_lookup / enc_dec_port_lookup while it      *)
+(*            builds the instance's kernel contexts (fifo indices)        *)
 (*   head  -- svt_dec_memory_map, the head of THE decoder allocation list: *)
 (*            svt_av1_dec_init_handle points it at the new handle's list   *)
 (*            (EbDecHandle.c:116-119), EB_MALLOC_DEC pushes every          *)
@@ -25,14 +31,17 @@
 (* that is not the one its own init built; no decoder frees or loses       *)
 (* memory of another live decoder.  TLC shows for which populations the    *)
 (* DESIGN guarantees it: encoders with identical (sb size, cpu flags) that *)
-(* are ALL initialised before any of them encodes (Barrier = TRUE, a usage *)
-(* discipline the application must provide), plus at most one decoder.     *)
+(* are initialised ONE AT A TIME (SerialInit) and ALL before any of them   *)
+(* encodes (Barrier) -- usage disciplines the application must provide --, *)
+(* plus at most one decoder.                                               *)
 (***************************************************************************)
 EXTENDS Integers, Sequences, FiniteSets, TLC
 
 CONSTANTS Enc, Dec,        \* instance identifiers
           Sb, Flags,       \* Enc -> superblock size, Enc -> cpu flag set
+          Procs,           \* Enc -> process counts the instance configures (a function of resolution and thread count)
           Barrier,         \* TRUE: the application initialises every encoder before any of them starts encoding
+          SerialInit,      \* TRUE: the application lets only one instance at a time be inside svt_av1_enc_init
           Steps,           \* encode/decode steps per instance
           Allocs           \* allocations a decoder makes per phase (init, and lazily at the first frame)
 
@@ -40,25 +49,28 @@ VARIABLES est, ecnt,       \* encoder: "new" | "init" | "run" | "done", steps ta
           builders,        \* encoders inside svt_av1_enc_init (tables partially rebuilt)
           dst, dcnt,       \* decoder: "new" | "handle" | "run" | "done", steps taken
           geom, rtcd,      \* globals (0 / {} = never built)
+          ports,           \* global port-count tables (value = the process counts last written)
           head,            \* global allocation list: sequence of owners (one entry per allocation)
           mine,            \* Dec -> number of allocations the instance made and has not seen freed
           bad              \* set of interference witnesses
 
-vars == <<est, ecnt, builders, dst, dcnt, geom, rtcd, head, mine, bad>>
+vars == <<est, ecnt, builders, dst, dcnt, geom, rtcd, ports, head, mine, bad>>
 
 Init ==
   /\ est = [e \in Enc |-> "new"] /\ ecnt = [e \in Enc |-> 0]
   /\ dst = [d \in Dec |-> "new"] /\ dcnt = [d \in Dec |-> 0]
   /\ builders = {}
-  /\ geom = 0 /\ rtcd = {}
+  /\ geom = 0 /\ rtcd = {} /\ ports = 0
   /\ head = <<>> /\ mine = [d \in Dec |-> 0]
   /\ bad = {}
 
 (* svt_av1_enc_init, two steps: the global tables are being rebuilt for THIS instance ... *)
 EInitBegin(e) ==
   /\ est[e] = "new"
+  /\ SerialInit => builders = {}
   /\ est' = [est EXCEPT ![e] = "init"]
   /\ builders' = builders \cup {e}
+  /\ ports' = Procs[e]                       \* the port counts of THIS instance are written into the global tables ...
   /\ UNCHANGED <<ecnt, dst, dcnt, geom, rtcd, head, mine, bad>>
 (* ... and are complete, holding this instance's values *)
 EInitEnd(e) ==
@@ -67,7 +79,9 @@ EInitEnd(e) ==
   /\ builders' = builders \ {e}
   /\ geom' = Sb[e]
   /\ rtcd' = Flags[e]
-  /\ UNCHANGED <<ecnt, dst, dcnt, head, mine, bad>>
+  \* ... and read back while the kernel contexts are built: the fifo indices of e are computed from whatever is there now
+  /\ bad' = bad \cup (IF ports # Procs[e] THEN {<<e, "fifo indices computed from the port counts of another instance", ports>>} ELSE {})
+  /\ UNCHANGED <<ecnt, dst, dcnt, ports, head, mine>>
 
 (* any kernel of the encoder pipeline: reads block geometry and calls through the dispatch tables *)
 EStep(e) ==
@@ -77,12 +91,12 @@ EStep(e) ==
   /\ bad' = bad \cup {<<e, "tables being rebuilt by", b>> : b \in builders}
                 \cup (IF geom # Sb[e] THEN {<<e, "geometry of another instance", geom>>} ELSE {})
                 \cup (IF rtcd # Flags[e] THEN {<<e, "dispatch table of another instance">>} ELSE {})
-  /\ UNCHANGED <<est, builders, dst, dcnt, geom, rtcd, head, mine>>
+  /\ UNCHANGED <<est, builders, dst, dcnt, geom, rtcd, ports, head, mine>>
 
 EDone(e) ==
   /\ est[e] = "run" /\ ecnt[e] = Steps
   /\ est' = [est EXCEPT ![e] = "done"]
-  /\ UNCHANGED <<ecnt, builders, dst, dcnt, geom, rtcd, head, mine, bad>>
+  /\ UNCHANGED <<ecnt, builders, dst, dcnt, geom, rtcd, ports, head, mine, bad>>
 
 (* svt_av1_dec_init_handle: the global head now designates this handle's (empty) list;            *)
 (* whatever was reachable from the old head is reachable no more                                  *)
@@ -91,7 +105,7 @@ DInitHandle(d) ==
   /\ dst' = [dst EXCEPT ![d] = "handle"]
   /\ head' = <<>>
   /\ bad' = bad \cup {<<o, "allocation list lost: head re-pointed by", d>> : o \in {head[i] : i \in 1 .. Len(head)} \ {d}}
-  /\ UNCHANGED <<est, ecnt, builders, dcnt, geom, rtcd, mine>>
+  /\ UNCHANGED <<est, ecnt, builders, dcnt, geom, rtcd, ports, mine>>
 
 (* EB_MALLOC_DEC in init or (lazily) in the first frames: pushes onto the global list *)
 DAllocStep(d) ==
@@ -100,7 +114,7 @@ DAllocStep(d) ==
   /\ dcnt' = [dcnt EXCEPT ![d] = @ + 1]
   /\ head' = head \o [i \in 1 .. Allocs |-> d]
   /\ mine' = [mine EXCEPT ![d] = @ + Allocs]
-  /\ UNCHANGED <<est, ecnt, builders, geom, rtcd, bad>>
+  /\ UNCHANGED <<est, ecnt, builders, geom, rtcd, ports, bad>>
 
 (* svt_av1_dec_deinit: frees every entry reachable from the global head *)
 DDeinit(d) ==
@@ -112,7 +126,7 @@ DDeinit(d) ==
                      \cup (IF ownCnt # mine[d] THEN {<<d, "own allocations not on the list at teardown (leaked)">>} ELSE {})
        /\ mine' = [o \in Dec |-> IF o \in owners THEN mine[o] - Cardinality({i \in 1 .. Len(head) : head[i] = o}) ELSE mine[o]]
   /\ head' = <<>>
-  /\ UNCHANGED <<est, ecnt, builders, dcnt, geom, rtcd>>
+  /\ UNCHANGED <<est, ecnt, builders, dcnt, geom, rtcd, ports>>
 
 Next == \/ \E e \in Enc : EInitBegin(e) \/ EInitEnd(e) \/ EStep(e) \/ EDone(e)
         \/ \E d \in Dec : DInitHandle(d) \/ DAllocStep(d) \/ DDeinit(d)
